@@ -607,6 +607,8 @@ def in_child(fn, cargs):
     if pid == 0:
         try:
             import signal
+            import resource
+            resource.setrlimit(resource.RLIMIT_CORE, (0, 0))
             signal.setitimer(signal.ITIMER_REAL, 20.0)
             fn(*cargs)
         finally:
